@@ -17,6 +17,7 @@ import (
 	"google.golang.org/protobuf/proto"
 
 	"github.com/dgraph-io/badger/v4/pb"
+	"github.com/dgraph-io/badger/v4/verifhook"
 	"github.com/dgraph-io/badger/v4/y"
 	"github.com/dgraph-io/ristretto/v2/z"
 )
@@ -174,6 +175,7 @@ func (st *Stream) produceKVs(ctx context.Context, threadId int) error {
 	st.numProducers.Add(1)
 	defer st.numProducers.Add(-1)
 
+	verifhook.Point("stream.beforeTxn")
 	var txn *Txn
 	if st.readTs > 0 {
 		txn = st.db.NewTransactionAt(st.readTs, false)
@@ -301,6 +303,7 @@ func (st *Stream) produceKVs(ctx context.Context, threadId int) error {
 				// Done with the keys.
 				return nil
 			}
+			verifhook.Point("stream.range")
 			if err := iterate(kr); err != nil {
 				return err
 			}
